@@ -1579,6 +1579,31 @@ func scripted(run *vh.Run, fd *findings) {
 		s.endBlock(3 + 2*D)
 		s.close()
 	}
+	// R3: tallies below 100 aer once the staking minimum has been voted that low (threshold divided by zero before f9db0000)
+	{
+		s := newSess(run, fd, run.Rng.Fork(), 2, "scripted:tally-below-100-aer")
+		a := s.addAcct(fixedAddr(16), coins(20000))
+		b := s.addAcct(fixedAddr(17), coins(1))
+		s.h = 2
+		s.stake(a, coins(10000))
+		s.voteDAO(a, "STAKINGMIN", []string{"7"})
+		s.endBlock(3)
+		s.stake(b, big.NewInt(150))
+		s.voteDAO(b, "BPCOUNT", []string{"5"}) // tally 150 aer: hundredth = 1
+		s.stake(b, big.NewInt(1))              // within the delay
+		s.endBlock(3 + D)
+		s.unstake(b, big.NewInt(100)) // leaves 50 aer: the refreshed vote has no hundredth
+		s.voteDAO(b, "GASPRICE", []string{"1"})
+		s.endBlock(3 + 2*D)
+		s.unstake(a, coins(10000))
+		s.unstake(b, big.NewInt(43)) // leaves 7 aer
+		s.voteDAO(b, "BPCOUNT", []string{"7"})
+		if s.dead {
+			s.fail("an admitted governance transaction panicked in block execution")
+		}
+		s.endBlock(4 + 2*D)
+		s.close()
+	}
 	// K1: two candidates equal from byte 7 on with equal tallies (DESIGN lead 4)
 	{
 		s := newSess(run, fd, run.Rng.Fork(), 2, "scripted:tie")
